@@ -92,6 +92,7 @@ BODY = {
     "d4": "&rbrace;&rbrace;",
     "NULL": None,
 }
+IncOf = {"t1": "t1i"}
 CALL_RE = re.compile(r"\{\{([^{}|]+)\}\}")
 
 
@@ -396,7 +397,12 @@ def judge(pred, obs, restored):
     prekeys = {(r[0], r[1]) for r in pred["pre"]}
     for k in f5:
         if k not in prekeys and k not in ovkeys:
-            if k[0] in pred["ovtitles"] or any(k[0].endswith(t) for t in pred["ovtitles"]):
+            # every write of the passes comes from an override item: a page that carries the title or the
+            # content of one is a misplaced override (P1), anything else is a page out of nowhere
+            row = f5[k]
+            related = any(t.strip() and (t.strip() in k[0] or k[0].strip() in t) for t in pred["ovtitles"]) or \
+                (row[3] is not None and row[3] in pred["ovbodies"]) or (row[2] is not None and row[2] in pred["ovbodies"])
+            if related:
                 drift.append(f"P1: override stored under {k}, the model expects one of {sorted(ovkeys)}")
             else:
                 c12.append(f"page {k} appears that is neither ingested nor given as an override")
@@ -447,9 +453,11 @@ def judge(pred, obs, restored):
             if got != want:
                 surv = [r for r in got if r not in want]
                 lost = [r for r in want if r not in got]
+                how = ("no backup was taken, so re-opening the database path does not undo the overrides"
+                       if obs["bak"] is None else
+                       "the database path re-opens (restore from the backup) to a store that is not the one before the overrides")
                 c11.append(
-                    "skip_extract_dump: after the pipeline the database path re-opens (restore from the backup) to "
-                    f"a store that is not the one before the overrides: override versions surviving {surv[:3]!r}, "
+                    f"skip_extract_dump: after the pipeline {how}: override versions surviving {surv[:3]!r}, "
                     f"original versions missing {lost[:3]!r}")
     elif obs["bak"] is not None:
         drift.append("P2: a backup file exists although the model takes none here")
@@ -474,6 +482,7 @@ def concretise(case, tables):
         "bak": {"some": case["bak"]["some"], "rows": [row_conc(r) for r in case["bak"]["rows"]]},
         "path": case["path"], "ovkeys": [(conc(k[0]), k[1]) for k in case["ovkeys"]],
         "ovtitles": sorted({conc(it[0]) for s in case["srcs"] for it in s["items"]}),
+        "ovbodies": {x for s in case["srcs"] for it in s["items"] for x in (body[it[4]], body.get(IncOf.get(it[4], it[4])), conc_red(it[2])) if x is not None},
         "due": case["due"], "ideal": [conc(t) for t in case["ideal"]], "skip": case["skip"],
         "committed": case["committed"],
     }
@@ -757,7 +766,8 @@ def rand_body(rng, ab: Abs, template: bool):
     if template and rng.random() < 0.2:
         raw = core + "<noinclude>doc {{Zed}} PRE</noinclude>"
         return ab.body(raw, core, uses, pre), raw
-    return ab.body(core, None, uses if template else (), pre if template else False), core
+    # the tables describe texts (what the classifier answers for them) whatever page carries them
+    return ab.body(core, None, uses, pre), core
 
 
 def rand_scenario(rng, ab: Abs, only_skip: bool):
@@ -1154,6 +1164,7 @@ def extend(o: Outcome, tier: str, pid: str) -> None:
         vjobs = [("scn", sd, 30, only_skip, 0)]
         vjobs += [("save", sd + 100, 15, 100000)] if pid == "C12" else []
     recs = pmap(record_chunk, vjobs, chunk=1)
+    stats["t_record_s"] = round(time.time() - t0, 1)
 
     # ---- all TLC work in parallel
     jobs: dict = {}
@@ -1192,6 +1203,7 @@ def extend(o: Outcome, tier: str, pid: str) -> None:
         if doc["events"]:
             jobs[f"Trace[{i}]"] = (lambda doc=doc: validate(doc))
     res = par(jobs, nthreads=16 if thorough else 10)
+    stats["t_tlc_done_s"] = round(time.time() - t0, 1)
 
     for name, r in res.items():
         o.add_tlc("pipeline:" + name, r[0] if name.startswith("Trace") else r)
@@ -1242,6 +1254,7 @@ def extend(o: Outcome, tier: str, pid: str) -> None:
         c = cases[len(cases) // 2]
         o.sample({"pipeline_scenario": describe_case(c), "predicted_calls": c["path"], "predicted_final_rows": len(c["fin"])})
 
+    stats["t_scenarios_done_s"] = round(time.time() - t0, 1)
     # ---- G: save / read back
     if "GenSave" in res:
         scases = res["GenSave"].tagged("SAVE")
@@ -1280,19 +1293,25 @@ def extend(o: Outcome, tier: str, pid: str) -> None:
                 o.shape(("v", common.json_key([e["base"], e["srcs"], e["skip"], e["func"]])))
             elif e["op"] == "save":
                 o.shape(("vs", common.json_key([e["pages"], e["win"]])))
-        seen = set()
+        by_tid: dict = {}
         for b in bad:
-            if b["tid"] in seen:
-                continue
-            seen.add(b["tid"])
-            c12, c11, drift = judge_trace_bad(b, info)
-            ev = [e for e in doc["events"] if e["tid"] == b["tid"]]
-            report(c12, c11, drift, {"tid": b["tid"], "concrete": info.get(b["tid"]), "tables": doc["tables"], "events": ev,
+            by_tid.setdefault(b["tid"], []).append(b)
+        for tid, bs in by_tid.items():
+            c12, c11, drift = [], [], []
+            for b in bs:
+                x, y, z = judge_trace_bad(b, info)
+                c12 += x
+                c11 += y
+                drift += [w for w in z if w not in drift][: max(0, 2 - len(drift))]
+            b = bs[0]
+            ev = [e for e in doc["events"] if e["tid"] == tid]
+            report(c12, c11, drift, {"tid": tid, "concrete": info.get(tid), "tables": doc["tables"], "events": ev,
                                      "mismatch": {k: b[k] for k in b if k not in ("preov",)}}, "V")
         for tid, inf in info.items():
-            if inf.get("exc"):
+            if isinstance(tid, int) and inf.get("exc"):
                 report([], [], [f"exception {inf['exc']}"], {"tid": tid, "concrete": inf}, "V")
     stats["trace_events"] = nev
+    stats["violating_cases"] = viol["n"]
     stats["wall_s"] = round(time.time() - t0, 1)
     o.extra.setdefault("pipeline", {})[pid] = stats
     o.rule = (o.rule + " | " if o.rule else "") + (
@@ -1405,12 +1424,11 @@ def selftest() -> int:
     c["pre"][0][3] = "b4"  # the store before the overrides is said to have held another text
     g1 = run_g_chunk([(0, c)])[0]
     c = json.loads(json.dumps(next(c for c in cases if c["kind"] == "B:no-template" and len(c["fin"]) > len(c["pre"]))))
-    c["fin"].pop()
-    c["ovkeys"] = []
+    c["fin"].pop()  # an overridden page is said not to be in the final store
     g2 = run_g_chunk([(0, c)])[0]
     print(f"G: {clean}/{len(cases)} scenarios agree; corrupted 'store before overrides' -> C11: {bool(g1[2])}, C12: {bool(g1[1])}; "
-          f"corrupted final store -> C12: {bool(g2[1])}")
-    ok = (not bad0 and not sbad0 and all(n > 0 for _, n in rejected) and clean == len(cases) and g1[2] and g2[1])
+          f"corrupted prediction for an overridden page -> DRIFT: {bool(g2[3])}, C12: {bool(g2[1])}")
+    ok = (not bad0 and not sbad0 and all(n > 0 for _, n in rejected) and clean == len(cases) and g1[2] and g1[1] and g2[3] and not g2[1])
     return 0 if ok else 1
 
 
